@@ -351,6 +351,9 @@ def number(node, st=None, n=0):
     elif k == "bin":
         s = number(node["s"], st)[0]
         r = {"k": k, "d": node["d"], "s": s, "o": number(node["o"], st)[0]}
+    elif k == "meth" and node["l"] == "attr:__next__":
+        # `s.__next__` ("Streams are iterable, not iterators"): AttributeError, like any name that is no operator method
+        r = {"k": "un", "d": "__next__", "s": number(node["s"], st)[0]}
     elif k == "meth":
         r = {"k": k, "l": node["l"], "s": number(node["s"], st)[0]}
     elif k == "append":
@@ -588,7 +591,7 @@ def impl_optable(c):
     ops = []
     for op in OpMethod.get("all"):
         ops.append({"name": op.name, "symbol": op.symbol, "rev": bool(op.rev), "dname": op.dname,
-                    "arity": op.arity, "func": _opfunc_name(op.func)})
+                    "arity": op.arity, "func": _opfunc_name(op.func), "repr": repr(op)})
     # what is really bound in the class: every dunder-looking callable of Stream.__dict__ that the
     # metaclass templates produce (closure over `op_func`), with the operator function it closes over
     installed = []
@@ -656,6 +659,8 @@ def _impl_once(c):
             return xc.impl_expr(c)
         if c["entry"] == "bcastE":
             return xc.impl_bcast(c)
+        if c["entry"] == "meta":
+            return xc.impl_meta(c)
         raise ValueError(c["entry"])
     except _Timeout:
         return {"err": "TIMEOUT"}
@@ -679,6 +684,8 @@ def request(c):
         return request_bcast(c)
     if c["entry"] in ("exprE", "bcastE"):
         return xc.request(c)
+    if c["entry"] == "meta":
+        return dict((k, c[k]) for k in ("entry", "ops", "without", "have", "ns"))
     return {"entry": c["entry"]}
 
 
@@ -829,6 +836,8 @@ def compare(c, io, drv):
         return xc.compare_expr(c, io, drv)
     if c["entry"] == "bcastE":
         return xc.compare_bcast(c, io, drv)
+    if c["entry"] == "meta":
+        return xc.compare_meta(c, io, drv)
     return [("model", "unknown entry")]
 
 
@@ -1336,6 +1345,10 @@ def malformed_cases():
                         fam="sym", okind="-", bad="ctor-mix", finite=False))
     cs.append(expr_case({"k": "un", "d": "__neg__", "s": {"k": "stream2", "a": {"k": "scalar", "c": {"S": "c"}}, "b": leaf("tuple", sym_vals("a", 2))}},
                         fam="sym", okind="-", bad="ctor-mix", finite=False))
+    for lf in ("list", "gen"):
+        cs.append(expr_case({"k": "meth", "l": "attr:__next__", "s": stream_of(leaf(lf, sym_vals("a", 2)))}, fam="sym", okind="-", bad="next-attr"))
+    cs.append(expr_case({"k": "un", "d": "__neg__", "s": {"k": "meth", "l": "attr:__next__", "s": stream_of(leaf("list", [1, 2]))}},
+                        fam="int", okind="-", bad="next-attr"))
     # an operator method of something that is not a Stream
     cs.append(expr_case({"k": "meth", "l": "abs", "s": stream_of(leaf("list", sym_vals("a", 3)))}, fam="sym", okind="-"))
     return cs
@@ -1527,9 +1540,16 @@ def tally(eng, c, io):
         tally_bcast(eng, c, io)
     elif c["entry"] in ("exprE", "bcastE"):
         xc.tally(eng, c, io)
+    elif c["entry"] == "meta":
+        xc.tally_meta(eng, c, io)
 
 
 def shrink(c):
+    if c["entry"] == "meta":
+        for k in ("ops", "without", "ns", "have"):
+            if c[k]:
+                yield dict(c, **{k: c[k][:-1]})
+        return
     if c["entry"] in ("exprE", "bcastE"):
         for x in xc.shrink(c):
             yield x
@@ -1613,7 +1633,7 @@ def _shrink_node(nd):
 
 
 def neighbours(c):
-    if c["entry"] in ("exprE", "bcastE"):
+    if c["entry"] in ("exprE", "bcastE", "meta"):
         return
     if c["entry"] == "bcast":
         for x in neighbours_bcast(c):
@@ -1653,6 +1673,8 @@ def classify(c, io, drv):
         operands are in the replay.  Coarse on purpose: one broken builder shows as one signature. """
     if c["entry"] == "optable":
         return "optable"
+    if c["entry"] == "meta":
+        return "metaclass-user"
     if c["entry"] == "bcast":
         return classify_bcast(c, io, drv)
     if c["entry"] in ("exprE", "bcastE"):
